@@ -17,7 +17,7 @@ NUM_POINTWISE = ["x", "z", "np.log(p)", "I(x + z)", "{x * 2}", "np.abs(z)", "I(x
 CAT = ["f", "g", "h", "u", "v", "C(k)", "C(k, levels=lv)", "C(h)", "T(g, 'g1')", "S(g)", "S(f, 'a')", "C(g, Treatment('g3'))", "C(u, Sum)",
        "T(h)", "C(f, Sum('b'))", "C(bq)"]
 CAT_PLAIN = ["f", "g", "h", "u", "C(k)"]
-GRP = ["g", "f", "h", "C(k)", "g:f", "u", "u:h", "v", "S(f)", "C(h, Sum)"]
+GRP = ["g", "f", "h", "C(k)", "g:f", "u", "u:h", "v", "S(f)", "C(h, Sum)", "I(k)", "g:I(k)"]  # also a factor that is a call returning numbers
 COLS = ("x", "z", "p", "f", "g", "h", "u", "k", "y", "s", "n", "v", "bq")
 _NAME = re.compile(r"\b(" + "|".join(COLS) + r")\b")
 
